@@ -986,6 +986,12 @@ fn merge_tie(cx: &mut Ctx, label: &str, src: &str, pair: &str, before: &Bytecode
     let a = if r.starts_with("ok") { cx.model.ask(&format!("(merge {e})")) } else { format!("model-parse-C:{r}") };
     if a.starts_with("equal") && a.contains(&format!("entry={em} ")) && a.contains("validate=true") {
         cx.ev.hit("merge:model-equals-merge_bytecode");
+        // hypothesis of C10.merge_isRenaming_types_tuples: no id bound twice in the final memo tables
+        if a.contains("keys-distinct=true") {
+            cx.ev.hit("merge:memo-keys-distinct");
+        } else {
+            cx.ev.hit("merge:memo-keys-rebound");
+        }
     } else {
         cx.ev.hit("merge:model-differs");
         cx.ev.violation(
